@@ -31,3 +31,19 @@ def rate_arg(r):
     from fractions import Fraction
     r = Fraction(r)
     return int(r) if r.denominator == 1 else float(r)
+
+
+def cli_sgy2sgz(src, path, rate=4, blockshape=None, reduce_iops=False, window=None):
+    """the same conversion through the command line interface (click), options spelled as a user would"""
+    from click.testing import CliRunner
+    from seismic_zfp.cli import cli
+    args = ['sgy2sgz', src, path, '--bits-per-voxel', str(rate), '--reduce-iops', 'true' if reduce_iops else 'false']
+    if blockshape is not None:
+        args += ['--blockshape'] + [str(b) for b in blockshape]
+    if window is not None:
+        args += ['--min-il', str(window[0]), '--max-il', str(window[1]), '--min-xl', str(window[2]), '--max-xl', str(window[3])]
+    with env.quiet():
+        r = CliRunner().invoke(cli, args)
+    if r.exit_code != 0:
+        raise RuntimeError(f'cli exit {r.exit_code}: {r.output[-200:]} {r.exception!r}')
+    return path
